@@ -116,9 +116,9 @@ def run(c):
             if st["uid"] != [cr["uid"]] * 3 or st["gid"] != [cr["gid"]] * 3:
                 bad.append("uid / gid are not the requested ones")
             skip = cr["nosetgroups"] or ("user" in x["ns"] and not x["gidmap_setgroups"] and not cr["groups"])
-            if st["groups"] != ([] if skip else cr["groups"]):
+            if st["groups"] != ([4242, 4243] if skip else cr["groups"]):
                 bad.append("supplementary groups are not the requested ones")
-        elif st["uid"] != [0, 0, 0] or st["gid"] != [0, 0, 0]:
+        elif st["uid"] != [0, 0, 0] or st["gid"] != [0, 0, 0] or st["groups"] != [4242, 4243]:
             bad.append("identity changed although no credential was requested")
         if st["sid"] != st["pid"]:
             bad.append("not the leader of its own session")
@@ -145,7 +145,7 @@ def run(c):
             cb("user" in x["ns"]), cb(x["gidmap_setgroups"]), cb(x["dropcaps"]), cb(x["nnp"]), cb(x["seccomp"]), cb(x["ptrace"]), cb(x["stop"]),
             cb(x["sync"]), cb(x["ucas"]), copt(sid(x["workdir"]) if "workdir" in x else None), copt(sid(x["host"]) if "host" in x else None),
             copt(sid(x["domain"]) if "domain" in x else None))
-        s0 = "start 0 0 [] (Some %d%%N) (Some %d%%N) (Some %d%%N)" % (sid(cwd0), sid(un.nodename), sid("<domain0>"))
+        s0 = "start 0 0 [4242; 4243]%%N (Some %d%%N) (Some %d%%N) (Some %d%%N)" % (sid(cwd0), sid(un.nodename), sid("<domain0>"))
         dom = sid(x["domain"]) if "domain" in x and st["domain"] == x["domain"] else (sid("<domain0>") if "domain" not in x else sid("<other>"))
         ob = "(%d%%N, %d%%N, %s, %s, %s, %s, %s, %d, %s, Some %d%%N, Some %d%%N, Some %d%%N, %s)" % (
             st["uid"][1], st["gid"][1], coq_list(["%d%%N" % g for g in st["groups"]]), cb(caps), cb(inh), cb(st["securebits"] & 1), cb(st["nnp"]),
